@@ -5,7 +5,7 @@
    C14_extraction_refuted outside — the kernels inherit that finding).
    Not modelled (partial): real device memory models, warp scheduling, the vendor runtimes. *)
 From Coq Require Import Permutation.
-From NM Require Import Base Index Kernel KernelProofs.
+From NM Require Import Base Index Kernel KernelProofs Functor FunctorProofs.
 Local Open Scope Z_scope.
 
 (* ANY schedule that covers [0,size): any order, duplicated threads, extra (over-provisioned)
@@ -57,6 +57,16 @@ Theorem C13_rebuild_roundtrip : forall (A : Type) (data : list A) shape_ptr dim,
   create_array_elems A data shape_ptr dim = (shape, map Some data).
 Proof. intros A. exact (@rebuild_roundtrip A). Qed.
 Print Assumptions C13_rebuild_roundtrip.
+
+(* "equal to host evaluation" fails for some views: the result every thread computes is the
+   extracted composition applied to the extracted operands, which is not the view when a non-leaf
+   operand sits at position >= 1 (C14_extraction_refuted); a complete launch then faithfully stores
+   the wrong result.  Finding extraction-nonleaf-operand-at-position>=1, inherited from C14. *)
+Theorem C13_host_equivalence_refuted :
+  exists (e : expr Z) (r : list Z), arity_ok e = true /\ extracted Z e = ([], r)
+    /\ launch Z r 1 [(0, 0)] [0] = Some r /\ r <> [eval Z e].
+Proof. exists refute_e, [-8]. repeat split; try reflexivity. vm_compute. discriminate. Qed.
+Print Assumptions C13_host_equivalence_refuted.
 
 (* ---------- non-vacuity ---------- *)
 (* descending order, duplicates, 2 extra threads, block size 3 *)
